@@ -2,7 +2,7 @@
    "In every process" is represented by "for every oracle (= iteration order) at the modelled sites". *)
 From Coq Require Import String List Bool ZArith Permutation.
 Import ListNotations.
-Require Import V.Lib.PyStr V.Lib.JTree V.Det.Model V.Det.Proofs V.Det.Congr V.Det.Refs V.Det.Naming V.Det.Session V.Det.Aggregate V.Det.Replicate.
+Require Import V.Lib.PyStr V.Lib.JTree V.Det.Model V.Det.Proofs V.Det.Congr V.Det.Refs V.Det.Naming V.Det.Session V.Det.Aggregate V.Det.Replicate V.Det.Reparam.
 Open Scope string_scope.
 Open Scope list_scope.
 
@@ -192,6 +192,42 @@ Theorem C15_session_same_as_fresh_process : forall piK piK' before after (read r
   end.
 Proof. exact session_same_as_fresh. Qed.
 Print Assumptions C15_session_same_as_fresh_process.
+
+(* ONE configuration object, RE-PARAMETRIZED (Det.Reparam: the object keeps the FlowIR of the package as it was
+   before any user variable was patched in, and what it currently serves).  Whatever options it was constructed with
+   and whatever calls of parametrize() it has answered since (other variable files, none, other platforms), the
+   object that parametrize(options) leaves is the one a fresh construction with these options gives: same user
+   variables, same stage variables of the platform in use (same iteration orders and contents); and against a FRESH
+   PROCESS (its own iteration orders, key-permuted but equal files) the user variables fail in both or are equal up
+   to the order of entries. *)
+Theorem C15_reparametrize_same_as_fresh_object : forall piK pkg first more o,
+  parametrize piK (after piK pkg first more) o = construct piK pkg o.
+Proof. exact reparam_is_fresh. Qed.
+Print Assumptions C15_reparametrize_same_as_fresh_object.
+
+Theorem C15_reparametrize_answers_are_fresh_loads : forall piK pkg calls,
+  answers piK pkg calls = map (construct piK pkg) calls.
+Proof. exact answers_fresh. Qed.
+Print Assumptions C15_reparametrize_answers_are_fresh_loads.
+
+Theorem C15_reparametrize_same_as_fresh_process : forall piK piK' pkg first more (read read' : string -> jv) files plat,
+  perm_oracle piK -> perm_oracle piK' ->
+  (forall f, In f files -> wfk (read f)) ->
+  (forall f, In f files -> jperm (read f) (read' f)) ->
+  current (parametrize piK (after piK pkg first more) (read, files, plat)) =
+    patch (load_variables piK read files) (table_of pkg plat) /\
+  match uservars (parametrize piK (after piK pkg first more) (read, files, plat)),
+        uservars (construct piK' pkg (read', files, plat)) with
+  | Some r, Some r' => jperm r r'
+  | None, None => True
+  | _, _ => False
+  end.
+Proof.
+  intros piK piK' pkg first more read read' files plat H1 H2 W J. split.
+  - apply reparam_current.
+  - exact (reparam_uservars piK piK' pkg first more read read' files plat H1 H2 W J).
+Qed.
+Print Assumptions C15_reparametrize_same_as_fresh_process.
 
 (* ---------------------------------------------------------------- S7: aggregation of replicated references *)
 (* compile_component_aggregate rewrites with one pass per replicated reference (absolute spelling, else relative)
@@ -397,3 +433,17 @@ Proof.
   - apply (reach_step _ _ ["entry-instance"; "relay"]); [vm_compute; tauto|].
     apply (reach_step _ _ ["entry-instance"; "generate"]); [vm_compute; tauto|apply reach_refl].
 Qed.
+
+(* non-vacuity of the re-parametrization statements: a package whose stage 0 has x = pkg; an object constructed with
+   [a; b] (x = B, y = B, z = 2 patched into stage 0) and then re-parametrized without files serves x = pkg, z = pkgz again;
+   re-parametrized with [a] it serves x = A, z = 1 and no y.  The lazily taken snapshot (Refuted) keeps x = B. *)
+Definition ex_pkg : package := [("default", [("0", JDict [("x", JStr "pkg"); ("z", JStr "pkgz")])])].
+Example C15_nonvacuous_reparametrize :
+  current (construct id_oracle ex_pkg (ex_read, ["a"; "b"], "default")) =
+    [("0", JDict [("x", JStr "B"); ("z", JInt 2); ("y", JStr "B")])] /\
+  current (parametrize id_oracle (after id_oracle ex_pkg (ex_read, ["a"; "b"], "default") []) (ex_read, [], "default")) =
+    [("0", JDict [("x", JStr "pkg"); ("z", JStr "pkgz")])] /\
+  current (parametrize id_oracle (after id_oracle ex_pkg (ex_read, ["a"; "b"], "default") [(ex_read, [], "default")])
+                       (ex_read, ["a"], "default")) =
+    [("0", JDict [("x", JStr "A"); ("z", JInt 1)])].
+Proof. repeat split; vm_compute; reflexivity. Qed.
